@@ -27,102 +27,99 @@ Proof.
   intros H. rewrite sph_from_composite_is_new. apply sph_new_accepts_iff. assumption.
 Qed.
 
-(* pack() itself never raises ValueError: its only failure is struct.error *)
-Lemma struct_pack_not_evalue n v : struct_pack n v <> Err EValue.
-Proof. unfold struct_pack. destruct (_ && _); discriminate. Qed.
+(* ================= the setter path ================= *)
+(* The attribute setters of SpacePacketHeader (apid, seq_count, data_len, and the same assignments
+   through packet_id / packet_seq_control) do not validate (Model/SpacePacket.v, sph_apply);
+   pack() does: an out-of-range APID / sequence count / data length is never encoded. *)
 
-Theorem sph_pack_never_evalue h : sph_pack h <> Err EValue.
+(* one assignment, from ANY state (also one that is already out of range elsewhere) *)
+Theorem sph_setter_apid_refused h v : ~ 0 <= v <= 2047 ->
+  sph_pack (sph_apply h (SoApid v)) = Err EValue.
+Proof. intros R. apply sph_pack_out_of_range. unfold sph_in_range. cbn [sph_apply apid]. lia. Qed.
+
+Theorem sph_setter_count_refused h v : ~ 0 <= v <= 16383 ->
+  sph_pack (sph_apply h (SoCount v)) = Err EValue.
+Proof. intros R. apply sph_pack_out_of_range. unfold sph_in_range. cbn [sph_apply scount]. lia. Qed.
+
+Theorem sph_setter_dlen_refused h v : ~ 0 <= v <= 65535 ->
+  sph_pack (sph_apply h (SoDlen v)) = Err EValue.
+Proof. intros R. apply sph_pack_out_of_range. unfold sph_in_range. cbn [sph_apply dlen]. lia. Qed.
+
+(* a setter whose argument may be ANY integer for the three range-checked fields; the fields that
+   nothing validates (packet type, secondary header flag, sequence flags) stay defined *)
+Definition sph_op_rest_in_range (o : sph_op) : Prop :=
+  match o with
+  | SoFlags v => 0 <= v < 4
+  | SoPtype v => 0 <= v < 2
+  | SoShf v => 0 <= v < 2
+  | _ => True
+  end.
+
+Lemma sph_apply_rest_valid h o : sph_rest_valid h -> sph_op_rest_in_range o ->
+  sph_rest_valid (sph_apply h o).
 Proof.
-  unfold sph_pack.
-  destruct (struct_pack 2 (Z.lor _ _)) as [w0|e0] eqn:E0; cbn [bind].
-  2:{ intros X. injection X as ->. exact (struct_pack_not_evalue _ _ E0). }
-  destruct (struct_pack 2 (psc_raw _)) as [w1|e1] eqn:E1; cbn [bind].
-  2:{ intros X. injection X as ->. exact (struct_pack_not_evalue _ _ E1). }
-  destruct (struct_pack 2 (dlen h)) as [w2|e2] eqn:E2; cbn [bind].
-  2:{ intros X. injection X as ->. exact (struct_pack_not_evalue _ _ E2). }
-  discriminate.
+  unfold sph_rest_valid. destruct o; cbn [sph_apply sph_op_rest_in_range ver ptype shf sflags];
+    intros; lia.
 Qed.
 
-(* data-length setter: an out-of-range value is never encoded, but the refusal is pack()'s
-   struct.error, not ValueError *)
-Theorem sph_setter_dlen_out_of_range h v : sph_valid h -> ~ 0 <= v <= 65535 ->
-  sph_pack (sph_apply h (SoDlen v)) = Err EStruct.
+Lemma sph_history_rest_valid ops : forall h, sph_rest_valid h -> Forall sph_op_rest_in_range ops ->
+  sph_rest_valid (fold_left sph_apply ops h).
 Proof.
-  intros H R. pose proof (sph_pack_layout h H) as P. unfold sph_pack in *.
-  cbn [sph_apply sph_pid sph_psc ver ptype shf apid sflags scount dlen] in *.
-  destruct (struct_pack 2 (Z.lor _ _)) as [w0|e0]; cbn [bind] in *; [|discriminate].
-  destruct (struct_pack 2 (psc_raw _)) as [w1|e1]; cbn [bind] in *; [|discriminate].
-  unfold struct_pack. change (256 ^ Z.of_nat 2) with 65536.
-  destruct (_ && _) eqn:E; [lia|reflexivity].
+  induction ops as [|o ops IH]; intros h H F; cbn [fold_left]; [assumption|].
+  inversion F; subst. apply IH; [apply sph_apply_rest_valid|]; assumption.
 Qed.
 
-(* APID / sequence-count setters: FALSE that an out-of-range value is refused with ValueError.
-   Bits above the field spill into the neighbouring field (bit 11 of the "APID" is the
-   secondary-header flag, bit 14 of the "count" the sequence flags) and the header is encoded. *)
+(* pack() of a state with defined version / type / flags: the standard's six octets exactly when
+   APID, count and data length are in range, ValueError otherwise *)
+Theorem sph_pack_iff h : sph_rest_valid h ->
+  (sph_in_range h -> sph_pack h = Ok (sph_layout h)) /\
+  (~ sph_in_range h -> sph_pack h = Err EValue).
+Proof.
+  intros H. split.
+  - intros R. apply sph_pack_layout. apply sph_valid_split. split; assumption.
+  - apply sph_pack_out_of_range.
+Qed.
+
+(* ... hence after ANY history of setter calls (any integer assigned to APID / count / data length,
+   in any order, any number of times, interleaved with pack / observe / compare): the current
+   values are encoded per the standard when they are in range and refused with ValueError when
+   they are not -- an out-of-range value is never encoded, and a later in-range assignment heals
+   the object *)
+Theorem sph_history_pack_iff ops h : sph_valid h -> Forall sph_op_rest_in_range ops ->
+  let h' := fold_left sph_apply ops h in
+  (sph_in_range h' -> sph_pack h' = Ok (sph_layout h') /\
+                      forall rest, sph_unpack (sph_layout h' ++ rest) = Ok h') /\
+  (~ sph_in_range h' -> sph_pack h' = Err EValue) /\
+  (forall b, sph_pack h' = Ok b -> sph_in_range h' /\ b = sph_layout h').
+Proof.
+  intros H F h'. apply sph_valid_split in H. destruct H as [Hr _].
+  pose proof (sph_history_rest_valid ops h Hr F) as V. fold h' in V.
+  destruct (sph_pack_iff h' V) as [P N].
+  split; [|split].
+  - intros R. split; [apply P; assumption|].
+    intros rest. apply sph_unpack_pack. apply sph_valid_split. split; assumption.
+  - exact N.
+  - intros b E. pose proof (sph_pack_ok_in_range _ _ E) as R. split; [assumption|].
+    rewrite (P R) in E. injection E as <-. reflexivity.
+Qed.
+
+(* the refusal leaves the object as it is (pack is an observer), whatever the state *)
+Theorem sph_pack_pure h : sph_apply h SoPack = h.
+Proof. reflexivity. Qed.
+
+(* SpacePacket.pack() packs the header first: same refusal, whatever the parts are *)
+Theorem space_packet_pack_out_of_range h sec ud : ~ sph_in_range h ->
+  space_packet_pack h sec ud = Err EValue.
+Proof. intros N. unfold space_packet_pack. rewrite sph_pack_out_of_range by assumption. reflexivity. Qed.
+
+(* non-vacuity / the former witnesses: h.apid = 2048, h.seq_count = 16384, h.data_len = 65536 on a
+   header of zeros, then healed *)
 Definition sph_zero : sph :=
   {| ver := 0; ptype := 0; shf := 0; apid := 0; sflags := 0; scount := 0; dlen := 0 |}.
 
-Theorem sph_setter_apid_refuted : exists h v, sph_valid h /\ ~ 0 <= v <= 2047 /\
-  sph_pack (sph_apply h (SoApid v)) =
-    Ok (sph_layout {| ver := ver h; ptype := ptype h; shf := 1; apid := 0;
-                      sflags := sflags h; scount := scount h; dlen := dlen h |}).
-Proof.
-  exists sph_zero, 2048. split; [unfold sph_valid, sph_zero; cbn; lia|].
-  split; [lia|]. vm_compute. reflexivity.
-Qed.
-
-Theorem sph_setter_count_refuted : exists h v, sph_valid h /\ ~ 0 <= v <= 16383 /\
-  sph_pack (sph_apply h (SoCount v)) =
-    Ok (sph_layout {| ver := ver h; ptype := ptype h; shf := shf h; apid := apid h;
-                      sflags := 1; scount := 0; dlen := dlen h |}).
-Proof.
-  exists sph_zero, 16384. split; [unfold sph_valid, sph_zero; cbn; lia|].
-  split; [lia|]. vm_compute. reflexivity.
-Qed.
-
-(* what holds instead, for every out-of-range setter argument: never ValueError *)
-Theorem sph_setter_never_evalue h o : sph_pack (sph_apply h o) <> Err EValue.
-Proof. apply sph_pack_never_evalue. Qed.
-
-(* values that do not fit the 16-bit word at all are refused (struct.error) *)
-Theorem sph_setter_apid_large h v : sph_valid h -> (v < 0 \/ 65536 <= v) ->
-  sph_pack (sph_apply h (SoApid v)) = Err EStruct.
-Proof.
-  intros H R. unfold sph_pack.
-  unfold sph_apply, sph_pid, pid_raw.
-  cbn [ver ptype shf apid sflags scount dlen pid_ptype pid_shf pid_apid].
-  assert (E : struct_pack 2 (Z.lor (Z.shiftl (ver h) 13)
-              (Z.lor (Z.lor (Z.shiftl (ptype h) 12) (Z.shiftl (shf h) 11)) v)) = Err EStruct).
-  { unfold struct_pack. change (256 ^ Z.of_nat 2) with 65536.
-    set (x := Z.lor _ _).
-    assert (X : x < 0 \/ 65536 <= x).
-    { subst x. destruct H as (Hv & Ht & Hs & _).
-      set (k := Z.lor (Z.shiftl (ver h) 13) (Z.lor (Z.shiftl (ptype h) 12) (Z.shiftl (shf h) 11))).
-      replace (Z.lor (Z.shiftl (ver h) 13) (Z.lor (Z.lor (Z.shiftl (ptype h) 12) (Z.shiftl (shf h) 11)) v))
-        with (Z.lor k v) by (subst k; now rewrite !Z.lor_assoc).
-      assert (K : 0 <= k < 65536).
-      { subst k. rewrite !Z.shiftl_mul_pow2 by lia.
-        split.
-        - apply Z.lor_nonneg. split; [lia|]. apply Z.lor_nonneg. lia.
-        - apply (Z.log2_lt_cancel). destruct (Z.eq_dec (Z.lor (ver h * 2 ^ 13) (Z.lor (ptype h * 2 ^ 12) (shf h * 2 ^ 11))) 0) as [->|N]; [cbn; lia|].
-          rewrite Z.log2_lor by (try apply Z.lor_nonneg; lia).
-          rewrite Z.log2_lor by lia.
-          change (Z.log2 65536) with 16.
-          assert (Z.log2 (ver h * 2 ^ 13) < 16).
-          { destruct (Z.eq_dec (ver h) 0) as [->|]; [cbn; lia|]. apply Z.log2_lt_pow2; lia. }
-          assert (Z.log2 (ptype h * 2 ^ 12) < 16).
-          { destruct (Z.eq_dec (ptype h) 0) as [->|]; [cbn; lia|]. apply Z.log2_lt_pow2; lia. }
-          assert (Z.log2 (shf h * 2 ^ 11) < 16).
-          { destruct (Z.eq_dec (shf h) 0) as [->|]; [cbn; lia|]. apply Z.log2_lt_pow2; lia. }
-          lia. }
-      destruct R as [R|R].
-      - left. apply Z.lor_neg. right. assumption.
-      - right. assert (0 <= Z.lor k v) by (apply Z.lor_nonneg; lia).
-        destruct (Z_lt_le_dec (Z.lor k v) 65536) as [L|L]; [|assumption]. exfalso.
-        assert (Z.log2 (Z.lor k v) < 16).
-        { destruct (Z.eq_dec (Z.lor k v) 0) as [->|]; [cbn; lia|]. apply Z.log2_lt_pow2; lia. }
-        rewrite Z.log2_lor in * by lia.
-        assert (16 <= Z.log2 v) by (apply Z.log2_le_pow2; lia). lia. }
-    destruct (_ && _) eqn:E; [lia|reflexivity]. }
-  rewrite E. reflexivity.
-Qed.
+Example sph_setter_witnesses :
+  sph_pack (sph_apply sph_zero (SoApid 2048)) = Err EValue /\
+  sph_pack (sph_apply sph_zero (SoCount 16384)) = Err EValue /\
+  sph_pack (sph_apply sph_zero (SoDlen 65536)) = Err EValue /\
+  sph_pack (fold_left sph_apply [SoApid 2048; SoPack; SoApid 2047] sph_zero) = Ok [7; 255; 0; 0; 0; 0].
+Proof. vm_compute. repeat split. Qed.
